@@ -74,6 +74,8 @@ struct Obs {
     /// payload first bytes seen by B's application
     recv: Vec<(Vec<u8>, u64)>,
     replies: Vec<(Vec<u8>, u64)>,
+    /// outcome of the handler's reliable replies: (reply index, Ok / error code name, virtual time us)
+    reply_sent: Vec<(usize, Result<(), String>, u64)>,
     client_done: bool,
     client_error: Option<String>,
 }
@@ -90,6 +92,18 @@ struct Handler {
     behaviour: Behaviour,
 }
 
+/// Payload length of the handler's replies (datagrams of a reply are then told from standalone
+/// acknowledgements and from A's messages by their size).
+const REPLY_LEN: usize = 12;
+
+impl Handler {
+    fn note_reply(&self, r: &Result<(), Error>) {
+        let mut o = self.obs.borrow_mut();
+        let k = o.reply_sent.len();
+        o.reply_sent.push((k, r.as_ref().map(|_| ()).map_err(|e| format!("{:?}", e.code())), vclock::now()));
+    }
+}
+
 impl ExchangeHandler for Handler {
     async fn handle(&self, mut exchange: Exchange<'_>) -> Result<(), Error> {
         loop {
@@ -101,16 +115,20 @@ impl ExchangeHandler for Handler {
             match self.behaviour {
                 Behaviour::Echo => {
                     let mut reply = p.clone();
-                    reply.truncate(4);
-                    exchange.send(MessageMeta::new(PROTO, 2, true), &reply).await?;
+                    reply.truncate(REPLY_LEN);
+                    let r = exchange.send(MessageMeta::new(PROTO, 2, true), &reply).await;
+                    self.note_reply(&r);
+                    r?;
                 }
                 Behaviour::Ack => exchange.acknowledge().await?,
                 Behaviour::Sink => {}
                 Behaviour::AckThenReply => {
                     exchange.acknowledge().await?;
                     let mut reply = p.clone();
-                    reply.truncate(4);
-                    exchange.send(MessageMeta::new(PROTO, 2, true), &reply).await?;
+                    reply.truncate(REPLY_LEN);
+                    let r = exchange.send(MessageMeta::new(PROTO, 2, true), &reply).await;
+                    self.note_reply(&r);
+                    r?;
                 }
             }
         }
@@ -562,6 +580,64 @@ fn judge(cfg: &Cfg, w: &World, fates: &Fates, trace: e1::Trace) -> Outcome<RunRe
                 let answered = net.log.iter().any(|d| d.from == 1 && d.sent_at_us >= *t);
                 if !answered {
                     v.push((format!("C09:{}:duplicate-not-acknowledged", kind), format!("message {} delivered again at {} us, B sent nothing afterwards", k, t)));
+                }
+            }
+        }
+    }
+    // the same rules for the handler's reliable replies (B -> A): datagrams of the reply size classes on the
+    // session under test, grouped by message counter (all transmissions of one message carry the same one)
+    if matches!(cfg.behaviour, Behaviour::Echo | Behaviour::AckThenReply) {
+        for (i, (p, _)) in obs.replies.iter().enumerate() {
+            if p.first().map(|b| *b as usize) != Some(i) || p.len() != REPLY_LEN {
+                let what = if obs.replies[..i].iter().any(|(q, _)| q == p) { "duplicate-reply-delivered-to-application" } else { "wrong-or-reordered-reply-delivered" };
+                v.push((format!("C09:{}:{}", kind, what), format!("application of A received as reply #{} a payload starting {:02x?} (len {})", i, &p[..p.len().min(4)], p.len())));
+                break;
+            }
+        }
+        let b_out: Vec<&crate::common::sim::Dgram> = net.log.iter().filter(|d| d.from == 1 && d.bytes.len() > 8 && u16::from_le_bytes([d.bytes[1], d.bytes[2]]) == 1 && (d.bytes.len() == base + REPLY_LEN || d.bytes.len() == base + REPLY_LEN + 4)).collect();
+        let mut ctrs: Vec<u32> = Vec::new();
+        for d in &b_out {
+            if !ctrs.contains(&ctr_of(d)) {
+                ctrs.push(ctr_of(d));
+            }
+        }
+        // (A gives up for good when one of its own calls failed: what it does with late traffic afterwards is
+        // the business of the session clean-up, not of this oracle)
+        let a_alive = obs.client_error.is_none() && obs.sent.iter().all(|s| s.1.is_ok());
+        for (idx, c) in ctrs.iter().enumerate() {
+            let tx: Vec<&&crate::common::sim::Dgram> = b_out.iter().filter(|d| ctr_of(d) == *c).collect();
+            retransmissions += tx.len() - 1;
+            let mut times: Vec<u64> = tx.iter().flat_map(|d| fates.delivered.iter().filter(move |(id, _)| *id == d.id).map(|(_, t)| *t)).collect();
+            times.sort();
+            if times.len() > 1 {
+                dup_deliveries += times.len() - 1;
+            }
+            if let Some((_, res, t_ret)) = obs.reply_sent.iter().find(|r| r.0 == idx) {
+                match res {
+                    Ok(()) => {
+                        if times.first().map(|t| t > t_ret).unwrap_or(true) {
+                            v.push((format!("C09:{}:reply-send-ok-but-never-delivered", kind), format!("send of reply {} returned Ok at {} us but no transmission of it had been delivered to the peer by then", idx, t_ret)));
+                        }
+                    }
+                    Err(code) => {
+                        if let Some(t0) = times.first() {
+                            let a_after: Vec<&crate::common::sim::Dgram> = net.log.iter().filter(|d| d.from == 0 && d.sent_at_us >= *t0 && d.sent_at_us <= *t_ret).collect();
+                            let all_through = !a_after.is_empty() && a_after.iter().all(|d| fates.delivered.iter().any(|(id, t)| *id == d.id && *t <= *t_ret));
+                            if all_through && a_alive {
+                                v.push((format!("C09:{}:reply-send-failed-although-delivered-and-acknowledged", kind), format!("reply {}: delivered at {} us, all {} datagrams the peer sent afterwards were delivered, yet send returned {}", idx, t0, a_after.len(), code)));
+                            }
+                        }
+                    }
+                }
+            }
+            // every received duplicate of a reliable message is acknowledged again - also when the application
+            // that received the original has meanwhile closed its exchange
+            if a_alive {
+                for t in times.iter().skip(1) {
+                    let answered = net.log.iter().any(|d| d.from == 0 && d.sent_at_us >= *t);
+                    if !answered {
+                        v.push((format!("C09:{}:duplicate-reply-not-acknowledged", kind), format!("reply {} delivered again at {} us, A sent nothing afterwards", idx, t)));
+                    }
                 }
             }
         }
